@@ -1,9 +1,13 @@
 from vlib.core import Check, Family
+from vlib.c03 import build_cabi
+from checks.models import ALL_MODELS
 
 CHECK = Check(
     "C03",
     props_modules=["OW.Props.C03"],
-    families=[Family("NDPAIR"), Family("ND", args=["prop=C03"], label="ND-c")],
+    pre_steps=[build_cabi],
+    families=[Family("NDPAIR"), Family("ND", args=["prop=C03"], label="ND-c"),
+              Family("CABI", rtol=1e-9, atol_scale=1e-12, args=["models=" + ",".join(ALL_MODELS), "n=6"])],
     level="proof",
     trusted=[
         "hand-written Lean model of the C back-end (data/cdata/arrays_c.go) inside OW/Nd/Array.lean (isC = true paths: unchecked pointer "
@@ -11,6 +15,9 @@ CHECK = Check(
         "(same program on Go-backed and C-backed roots, both runs compared with the model; canary guard zones around every C buffer "
         "checked after every operation) and ND programs on C roots",
         "memory safety of the real process: theorem c_inbounds on the model + canaries on the sampled runs; Go unsafe.Pointer semantics trusted",
+        "C entry point: libopenwater.so built from the current tree and called from a C program (harness/cabi/driver.c) with guard zones around "
+        "all four caller buffers, for every catalogued model; results compared bit for bit with the Go-API run of the same case and with the "
+        "wrapper model (family CABI)",
     ],
     assumptions=["views reachable by in-bounds slicing of roots with extents >= 1; operations in the domain of the reference semantics"],
 )
